@@ -266,3 +266,46 @@ class Locals:
             node = ds[0]
             depth += 1
         return node
+
+
+def inline_self_calls(meths: Dict[str, ast.FunctionDef], fn: ast.FunctionDef, depth: int = 2) -> ast.FunctionDef:
+    """Copy of ``fn`` in which statement-level ``self.helper()`` calls (no arguments) are replaced by the helper's
+    body, wrapped as ``while True: <body with return -> break>; break`` so that an early return of the helper
+    only leaves the helper.  Lets path analyses see logic that was moved into a private helper."""
+    import copy
+
+    class RetToBreak(ast.NodeTransformer):
+        def visit_FunctionDef(self, n):
+            return n
+
+        def visit_Return(self, n):
+            return ast.copy_location(ast.Break(), n)
+
+    def expand(stmts, d):
+        out = []
+        for st in stmts:
+            if d > 0 and isinstance(st, ast.Expr) and isinstance(st.value, ast.Call) and isinstance(st.value.func, ast.Attribute) \
+                    and isinstance(st.value.func.value, ast.Name) and st.value.func.value.id == "self" and not st.value.args and not st.value.keywords \
+                    and st.value.func.attr in meths and meths[st.value.func.attr] is not fn:
+                callee = copy.deepcopy(meths[st.value.func.attr])
+                body = [RetToBreak().visit(b) for b in expand(callee.body, d - 1)]
+                body.append(ast.Break())
+                w = ast.While(test=ast.Constant(value=True), body=body, orelse=[])
+                ast.copy_location(w, st)
+                ast.fix_missing_locations(w)
+                out.append(w)
+                continue
+            st2 = copy.copy(st)
+            for field in ("body", "orelse", "finalbody"):
+                if hasattr(st2, field) and isinstance(getattr(st2, field), list) and not isinstance(st2, (ast.FunctionDef, ast.ClassDef)):
+                    setattr(st2, field, expand(getattr(st2, field), d))
+            if isinstance(st2, ast.Try):
+                st2.handlers = [copy.copy(h) for h in st2.handlers]
+                for h in st2.handlers:
+                    h.body = expand(h.body, d)
+            out.append(st2)
+        return out
+
+    new = copy.copy(fn)
+    new.body = expand(fn.body, depth)
+    return new
